@@ -71,6 +71,14 @@ func (c *Chan[T]) check() {
 	}
 }
 
+// IDString identifies the channel within one execution.
+func (c *Chan[T]) IDString() string {
+	if c == nil {
+		return "nil"
+	}
+	return fmt.Sprintf("%x", c.id&0xffffff)
+}
+
 // Label returns the creation label.
 func (c *Chan[T]) Label() string {
 	if c == nil {
@@ -202,7 +210,7 @@ func (o *sendOp[T]) attempt(w *World, g *G, alt int) bool {
 }
 func (o *sendOp[T]) readyCases(w *World) []int { return nil }
 func (o *sendOp[T]) info() OpInfo {
-	return OpInfo{Kind: "send", Obj: o.c.Label(), Site: o.site}
+	return OpInfo{Kind: "send", Obj: o.c.Label(), Site: o.site, ID: o.c.IDString()}
 }
 
 // Send is `c <- v`.
@@ -277,7 +285,7 @@ func (o *recvOp[T]) attempt(w *World, g *G, alt int) bool {
 }
 func (o *recvOp[T]) readyCases(w *World) []int { return nil }
 func (o *recvOp[T]) info() OpInfo {
-	return OpInfo{Kind: "recv", Obj: o.c.Label(), Site: o.site}
+	return OpInfo{Kind: "recv", Obj: o.c.Label(), Site: o.site, ID: o.c.IDString()}
 }
 
 // Recv2 is `v, ok := <-c`.
@@ -352,6 +360,7 @@ type Case interface {
 	fire(w *World, g *G)
 	park(g *G, sel *selectOp, idx int)
 	obj() string
+	objID() string
 	finish()
 }
 
@@ -396,7 +405,8 @@ func (r *RecvCase[T]) park(g *G, sel *selectOp, idx int) {
 	r.sd = &sudog[T]{g: g, sel: sel, idx: idx, hist: mix(g.Hist, mix(r.c.id, 2))}
 	r.c.recvq = append(r.c.recvq, r.sd)
 }
-func (r *RecvCase[T]) obj() string { return r.c.Label() }
+func (r *RecvCase[T]) obj() string   { return r.c.Label() }
+func (r *RecvCase[T]) objID() string { return r.c.IDString() }
 func (r *RecvCase[T]) finish() {
 	if r.sd != nil {
 		r.V, r.OK = r.sd.val, r.sd.ok
@@ -413,8 +423,9 @@ func (s *SendCase[T]) park(g *G, sel *selectOp, idx int) {
 	}
 	s.c.sendq = append(s.c.sendq, &sudog[T]{g: g, val: s.v, sel: sel, idx: idx, hist: mix(g.Hist, mix(s.c.id, 1))})
 }
-func (s *SendCase[T]) obj() string { return s.c.Label() }
-func (s *SendCase[T]) finish()     {}
+func (s *SendCase[T]) obj() string   { return s.c.Label() }
+func (s *SendCase[T]) objID() string { return s.c.IDString() }
+func (s *SendCase[T]) finish()       {}
 
 type selectOp struct {
 	cases      []Case
@@ -465,14 +476,16 @@ func (o *selectOp) attempt(w *World, g *G, alt int) bool {
 }
 
 func (o *selectOp) info() OpInfo {
-	s := ""
+	s, ids := "", ""
 	for i, c := range o.cases {
 		if i > 0 {
 			s += ","
+			ids += ","
 		}
 		s += c.obj()
+		ids += c.objID()
 	}
-	return OpInfo{Kind: "select", Obj: s, Site: o.site}
+	return OpInfo{Kind: "select", Obj: s, Site: o.site, ID: ids}
 }
 
 // Select performs a select statement over the given clauses and returns the
